@@ -13,8 +13,10 @@ import (
 	"encoding/json"
 	"errors"
 	"fmt"
+	"os"
 	"strings"
 	"sync"
+	"testing"
 	"time"
 
 	"github.com/lestrrat-go/jwx/v2/jwk"
@@ -49,6 +51,19 @@ func (f fixedKeyResolver) ResolveKey(id did.DID, _ *time.Time, _ resolver.Relati
 var holderKeyOnce sync.Once
 var holderSigner nutsCrypto.MemoryJWTSigner
 var holderResolver fixedKeyResolver
+
+// silenceAuditLog makes the node's audit logger (one "Signing a JWT" line per presentation) write to /dev/null: the
+// logger binds os.Stderr when it is first used.
+func silenceAuditLog(t *testing.T) {
+	devNull, err := os.OpenFile(os.DevNull, os.O_WRONLY, 0)
+	if err != nil {
+		return
+	}
+	stderr := os.Stderr
+	os.Stderr = devNull
+	audit.CaptureAuditLogs(t)
+	os.Stderr = stderr
+}
 
 func holderKey() (nutsCrypto.MemoryJWTSigner, fixedKeyResolver) {
 	holderKeyOnce.Do(func() {
